@@ -47,13 +47,26 @@ Fixpoint has_prefix (pre s : bytes) : bool :=
 (* ---- the declaration ------------------------------------------------------ *)
 (* a user-declared field.  Only what entity.go / buildProperty look at is explicit;
    any other scalar type is carried through as its proto type number + j5 kind name *)
+(* the item type of an array / the value type of a map *)
+Inductive ikind :=
+| IScalar (ptype : N) (j5kind : bytes)
+| IExt (type_name : bytes) (j5kind : bytes)
+| IObject (name : bytes)
+| IOneof (name : bytes)
+| IEnum (name : bytes).
+
 Inductive fkind :=
 | KScalar (ptype : N) (j5kind : bytes)
 | KObject (name : bytes)                  (* object:<Name>, a reference to a schema of this package *)
 | KOneof (name : bytes)                   (* oneof:<Name> *)
 | KEnum (name : bytes)                    (* enum:<Name> *)
-| KKey (primary : bool) (foreign : option (bytes * bytes)) (tenant : option bytes).
+| KKey (primary : bool) (foreign : option (bytes * bytes)) (tenant : option bytes)
   (* schema.key {entity{primaryKey | foreignKey{package,entity}, tenantKey}} *)
+| KExt (type_name : bytes) (j5kind : bytes)
+  (* a message of another (always imported) package: timestamp -> google.protobuf.Timestamp,
+     date -> j5.types.date.v1.Date, decimal -> j5.types.decimal.v1.Decimal, any -> j5.types.any.v1.Any *)
+| KArray (item : ikind)                   (* array:<item>: a repeated field *)
+| KMap (value : ikind).                   (* map:<value>: a repeated field of a nested <Name>Entry message *)
 
 Record ufield := mkU { uf_name : bytes; uf_kind : fkind; uf_required : bool; uf_optional : bool }.
 (* a schema declared inside the entity block (entity.Schemas: object / oneof / enum) *)
@@ -92,7 +105,9 @@ Inductive otype :=
 | TScalar (ptype : N) (j5kind : bytes)
 | TObject (pkg name : bytes)        (* schema_j5pb.Ref as written: pkg "" = this package *)
 | TOneof (pkg name : bytes)
-| TEnum (pkg name : bytes).
+| TEnum (pkg name : bytes)
+| TExt (type_name : bytes) (j5kind : bytes)   (* a message type given by its full name *)
+| TMap (value : otype).             (* map<string, value>: the field refers to its own entry message *)
 
 (* a property; its field number is its 1-based position (mapProperties) *)
 Record ofield := mkF10 {
@@ -146,8 +161,23 @@ Definition base_url (e : entity) : bytes :=
 Definition local_obj (e : entity) (suffix : string) : otype := TObject [] (component_name e (bs suffix)).
 
 (* ---- user fields -> properties (buildProperty) ---------------------------------- *)
+Definition otype_of_item (i : ikind) : otype :=
+  match i with
+  | IScalar pt k => TScalar pt k
+  | IExt tn k => TExt tn k
+  | IObject n => TObject [] n
+  | IOneof n => TOneof [] n
+  | IEnum n => TEnum [] n
+  end.
+
 Definition of_ufield (u : ufield) : ofield :=
   match uf_kind u with
+  | KExt tn k =>
+      mkF10 (uf_name u) (TExt tn k) false (uf_required u) false false None None None (uf_optional u)
+  | KArray i =>
+      mkF10 (uf_name u) (otype_of_item i) true (uf_required u) false false None None None (uf_optional u)
+  | KMap v =>
+      mkF10 (uf_name u) (TMap (otype_of_item v)) true (uf_required u) false false None None None (uf_optional u)
   | KScalar pt k =>
       mkF10 (uf_name u) (TScalar pt k) false (uf_required u) false false None None None (uf_optional u)
   | KObject n =>
@@ -427,7 +457,7 @@ Definition defined (cs : list component) : list (bool * bytes) :=
     | CSvc _ _ => []
     end) cs.
 
-Definition ref_resolves (defs : list (bool * bytes)) (t : otype) : bool :=
+Fixpoint ref_resolves (defs : list (bool * bytes)) (t : otype) : bool :=
   let lookup (is_enum : bool) (pkg name : bytes) :=
     match pkg with
     | [] => existsb (fun d => Bool.eqb (fst d) is_enum && bytes_eqb (snd d) name) defs
@@ -438,6 +468,8 @@ Definition ref_resolves (defs : list (bool * bytes)) (t : otype) : bool :=
   | TObject p n => lookup false p n
   | TOneof p n => lookup false p n
   | TEnum p n => lookup true p n
+  | TExt _ _ => true
+  | TMap v => ref_resolves defs v
   end.
 
 Definition fields_of (cs : list component) : list ofield :=
@@ -473,8 +505,8 @@ Definition command_params_ok (e : entity) : bool :=
                                                 (path_join (command_base e c) (md_path m)))
                             (c_methods c)) (e_commands e).
 
-(* the compile outcome as far as the expansion decides it *)
-Definition compile (e : entity) : outcome (list component) :=
+(* the conversion outcome (j5convert) as far as the expansion decides it *)
+Definition convert (e : entity) : outcome (list component) :=
   match expand e with
   | Ok cs => if closed cs then
                if fields_ok e then
@@ -487,14 +519,87 @@ Definition compile (e : entity) : outcome (list component) :=
 
 (* a source file with several entity declarations of one package: each entity is expanded in
    turn into the same three files; any error fails the file *)
-Fixpoint compile_all (es : list entity) : outcome (list component) :=
+Fixpoint convert_all (es : list entity) : outcome (list component) :=
   match es with
   | [] => Ok []
   | e :: r =>
-      match compile e with
-      | Ok a => match compile_all r with Ok b => Ok (a ++ b) | o => o end
+      match convert e with
+      | Ok a => match convert_all r with Ok b => Ok (a ++ b) | o => o end
       | Err c => Err c
       | Panic p => Panic p
       | OutOfFuel => OutOfFuel
       end
   end.
+
+(* ---- the link step (protocompile linker.Symbols.importResult): one namespace per scope ----
+   package scope of each of the three files: messages, enums, enum VALUES (C++ scoping), services;
+   message scope: fields by proto name = ToSnake(name), the proto oneof "type" of a oneof wrapper
+   with members (visitOneofNode; omitted when empty, fix e5711b2), the synthetic oneof "_<field>"
+   of a proto3-optional field (visitObjectNode), nested messages; service scope: methods.
+   A second definition of a symbol is the link error `symbol "..." already defined`.
+   (j5's link path does not run protocompile's JSON-name / enum-value camel-case validations:
+   `data a__b` + `data a_b`, `status A_B` + `status AB` compile.) *)
+Definition proto_name (f : ofield) : bytes := to_snake (f_json f).
+(* fields.go mapName (protoc's rule): snake -> Camel, + "Entry" (names are ASCII) *)
+Fixpoint map_name_go (next_upper : bool) (s : bytes) : bytes :=
+  match s with
+  | [] => bs "Entry"
+  | c :: r => if c =? 95 then map_name_go true r
+              else (if next_upper then to_upper c else c) :: map_name_go false r
+  end.
+Definition map_name (proto : bytes) : bytes := map_name_go true proto.
+Definition is_map_field (f : ofield) : bool := match f_type f with TMap _ => true | _ => false end.
+(* the entry messages buildProperty nests into the containing message, in field order *)
+Definition entry_names (fs : list ofield) : list bytes :=
+  map (fun f => map_name (proto_name f)) (filter is_map_field fs).
+Definition fields_scope (is_oneof : bool) (fs : list ofield) : list bytes :=
+  map proto_name fs
+  ++ (if is_oneof then (if is_nil fs then [] else [bs "type"])
+      else map (fun f => 95 :: proto_name f) (filter f_optional fs))
+  ++ entry_names fs.
+Definition msg_scopes (m : omsg) : list (list bytes) :=
+  (fields_scope (m_oneof m) (m_fields m) ++ map fst (m_nested m))
+  :: map (fun n => fields_scope false (snd n)) (m_nested m).
+Definition file_scope (file : N) (cs : list component) : list bytes :=
+  flat_map (fun c => match c with
+    | CMsg f m => if f =? file then [m_name m] else []
+    | CEnum n vs => if file =? 0 then n :: map fst vs else []
+    | CSvc f s => if f =? file then [sv_name s] else []
+    end) cs.
+Definition inner_scopes (cs : list component) : list (list bytes) :=
+  flat_map (fun c => match c with
+    | CMsg _ m => msg_scopes m
+    | CEnum _ _ => []
+    | CSvc _ s => [map mt_name (sv_methods s)]
+    end) cs.
+Definition scopes (cs : list component) : list (list bytes) :=
+  [file_scope 0 cs; file_scope 1 cs; file_scope 2 cs] ++ inner_scopes cs.
+Definition link_ok (cs : list component) : bool := forallb nodup_bytes (scopes cs).
+
+(* the whole compile of one source file: the parser's validation of the declaration
+   (sourcedef Entity.status is `required`: an entity without a status is rejected before the
+   walker runs), conversion of every entity, then linking of the three files *)
+Definition compile_file (es : list entity) : outcome (list component) :=
+  if existsb (fun e => is_nil (e_status e)) es then Err "value is required"
+  else match convert_all es with
+       | Ok cs => if link_ok cs then Ok cs else Err "symbol already defined"
+       | o => o
+       end.
+Definition compile (e : entity) : outcome (list component) := compile_file [e].
+
+(* what protodesc.NewFiles (structure.APIFromImage, the first step towards the client API)
+   rejects although the compiler linked it: a proto3-optional field that is repeated (an
+   optional array or map: visitObjectNode puts it into a synthetic oneof) *)
+Definition client_accepts (cs : list component) : bool :=
+  forallb (fun f => negb (f_optional f && f_repeated f)) (fields_of cs).
+
+(* error classes, as the harness classifies the real compiler's message (errClass in c17.go) *)
+Definition err_class (s : string) : N :=
+  if String.eqb s "status not found in entity" then 1
+  else if String.eqb s "duplicate summary name" then 2
+  else if String.eqb s "type not found" then 3
+  else if String.eqb s "cannot be both required and optional" then 4
+  else if String.eqb s "missing field in request" then 5
+  else if String.eqb s "symbol already defined" then 6
+  else if String.eqb s "value is required" then 7
+  else 99.
